@@ -507,11 +507,16 @@ def o_draw(ctx, case):
         return 'draw_ontimes(size=0 / numpy int) on %r window (%r,%r) raised %s: %s' % (ivs, t0, t1, type(e).__name__, e)
     lo = ivs[0][0] if t0 is None else t0
     hi = ivs[-1][1] if t1 is None else t1
+    # IEEE rounding is outside the theorems: a drawn time may sit within a few units of rounding (relative to the magnitudes that
+    # enter the inverse CDF: edges and cumulative live time) of an edge of an interval of positive length; counted, not a violation.
+    # (Rewrites that re-associate `lower + (w - cum)` move draws by such amounts.)  Anything beyond that is a violation.
+    scale = max([abs(v) for p_ in ivs for v in p_] + [sum(b_ - a_ for a_, b_ in ivs)])
+    tol = 16 * 2.220446049250313e-16 * scale
     for u, x in zip(us, xs):
-        # the closed upper edge is tolerated only as an IEEE rounding of a value within 1 ulp of it
-        def near(x, b):
-            return x == b and abs(np.nextafter(b, -np.inf) - b) >= 0
-        ok = any((a <= x < b) or (b > a and near(x, b)) for a, b in ivs) and lo <= x <= hi
+        exact = any(a <= x < b for a, b in ivs) and lo <= x <= hi
+        ok = exact or (any(b > a and a - tol <= x <= b + tol for a, b in ivs) and lo - tol <= x <= hi + tol)
+        if ok and not exact:
+            ctx.count('draw:within-rounding-of-an-edge')
         if not ok:
             return '%s: u=%r gives t=%r which is not on-time inside the window (%r,%r) of %r' % (what, u, x, t0, t1, ivs)
     return None
@@ -792,7 +797,7 @@ def _corr_compare(case, impl, model):
         if mi == mm and ri == rm and abs(b2f(li) - b2f(lm)) <= scale + 1e-9 * sum(abs(b - a) for a, b in case['ivs']):
             return None     # np.sum is pairwise, the model sums sequentially
     if impl != model:
-        if k in ('upto', 'draw', 'drawwin') and impl.isdigit() and model.isdigit():
+        if k in ('upto', 'draw', 'drawwin', 'gentime') and impl.isdigit() and model.isdigit():
             # computed floats: bit-exactness is diagnostic only; the verdict relation is a tolerance
             a, b = b2f(impl), b2f(model)
             scale = sum(abs(x) for p in case['ivs'] for x in p) + abs(case.get('t', 0.0))
